@@ -28,6 +28,8 @@ pub enum F {
     Mac,
     Extract,
     Expand,
+    /// signature verification: a = public key, b = signed bytes, out = signature, len = verdict (1 = valid)
+    Verify,
 }
 
 pub struct Call {
@@ -58,6 +60,8 @@ pub struct Uf {
     /// `hash` is a concrete 2-byte fold of its input instead of a fresh value (differential
     /// harnesses that compare two computations of the same digest)
     toy: bool,
+    /// `verify` is recorded and returns a symbolic verdict (otherwise: always valid, not recorded)
+    verifying: bool,
 }
 unsafe impl Send for Uf {}
 unsafe impl Sync for Uf {}
@@ -70,18 +74,23 @@ impl core::fmt::Debug for Uf {
 
 impl Uf {
     pub fn new(log: &mut Log) -> Self {
-        Uf { log: log as *mut Log, toy: false }
+        Uf { log: log as *mut Log, toy: false, verifying: false }
+    }
+
+    /// Like `new`, and signature verification is a recorded call with a symbolic verdict.
+    pub fn new_verifying(log: &mut Log) -> Self {
+        Uf { log: log as *mut Log, toy: false, verifying: true }
     }
 
     /// No log: every call returns fresh symbolic bytes (cheaper; for harnesses about control flow).
     pub fn fresh() -> Self {
-        Uf { log: core::ptr::null_mut(), toy: false }
+        Uf { log: core::ptr::null_mut(), toy: false, verifying: false }
     }
 
     /// Deterministic toy digest: two outputs differ only if the inputs differ, so a mismatch
     /// between two computations under this provider is a mismatch of the hashed bytes.
     pub fn toy() -> Self {
-        Uf { log: core::ptr::null_mut(), toy: true }
+        Uf { log: core::ptr::null_mut(), toy: true, verifying: false }
     }
 
     fn fold(data: &[u8]) -> Vec<u8> {
@@ -295,7 +304,17 @@ impl CipherSuiteProvider for Uf {
         Ok(Vec::new())
     }
 
-    fn verify(&self, _pk: &SignaturePublicKey, _sig: &[u8], _data: &[u8]) -> Result<(), UfError> {
-        Ok(())
+    fn verify(&self, pk: &SignaturePublicKey, sig: &[u8], data: &[u8]) -> Result<(), UfError> {
+        if !self.verifying {
+            return Ok(());
+        }
+        let valid: bool = kani::any();
+        let log = unsafe { &mut *self.log };
+        log.calls.push(Call { f: F::Verify, a: pk.as_bytes().to_vec(), b: data.to_vec(), len: valid as usize, out: sig.to_vec() });
+        if valid {
+            Ok(())
+        } else {
+            Err(UfError)
+        }
     }
 }
